@@ -175,7 +175,7 @@ def scalar_cases(draw, nums=("frac",)):
     if fam == "closed":
         nn = max(nn, 2)
     return {"curve": c, "family": fam, "nnodes": nn, "k": k if fam != "default" else 0,
-            "explicit_nnodes": draw(st.booleans())}
+            "explicit_nnodes": draw(st.booleans()), "history": draw(st.sampled_from(lib.HISTORY_MODES))}
 
 
 def check_scalar(case, out):
@@ -185,6 +185,18 @@ def check_scalar(case, out):
     exact = lib.is_exact(num)
     ref = lib.case_state(c)
     curve = lib.build_curve(c)
+    if case.get("history"):
+        # object history: the same object was integrated while it held other control points / another parametrisation
+        def use(obj):
+            lib.default_use(obj)
+            for args in ((), ("closed-newton-cotes", obj.degree + 2), ("gauss-legendre", obj.degree + 1)):
+                try:
+                    Integrate.scalar(obj, None, *args)
+                except Exception as exc0:
+                    if not lib.from_library(exc0):
+                        raise
+        curve = lib.build_curve_history(c, case["history"], use)
+        out.cls("history=" + case["history"])
     p = ref.p
     fam = case["family"]
     bk = oracle.breaks(ref.U)
